@@ -616,9 +616,17 @@ class Gen:
                 self.feats.add("nobraces")
                 if r.random() < 0.25 and depth > 1 and rem >= 4:
                     self.feats.add("cs_in_cs")
-                    ikw = r.choice(["if", "while"])
-                    lines += [head, self.ctrl_line(ikw, self.cond(env, indent + 1, ikw, 1), indent + 1, func),
-                              self.stmt_line(self.simple_stmt(env, loop or ikw == "while", indent + 2), indent + 2, func)]
+                    # a chain of 2..4 brace-less control structures closed by one instruction
+                    chain = r.choice([1, 1, 2, 3]) if rem >= 6 else 1
+                    lines.append(head)
+                    lp = loop
+                    for c in range(chain):
+                        ikw = r.choice(["if", "while"])
+                        lp = lp or ikw == "while"
+                        lines.append(self.ctrl_line(ikw, self.cond(env, indent + 1 + c, ikw, 1), indent + 1 + c, func))
+                    if chain > 1:
+                        self.feats.add("cs_chain_%d" % (chain + 1))
+                    lines.append(self.stmt_line(self.simple_stmt(env, lp, indent + 1 + chain), indent + 1 + chain, func))
                 else:
                     lines += [head, self.stmt_line(self.simple_stmt(env, loop, indent + 1), indent + 1, func)]
             if kw == "if":
